@@ -543,7 +543,10 @@ PROPS["C05"] = dict(
     floor=2000,
     stages=[Stage("c05", pkg="mon_stark", variant="rel", kind="sharded", n=(60000, 3000000), mem_gb=4, timeout=(900, 7200)),
             Stage("c05", pkg="mon_stark", variant="chk", kind="sharded", n=(20000, 400000), mem_gb=4, timeout=(900, 7200)),
-            Stage("c05", pkg="mon_stark", variant="asan", kind="sharded", n=(6000, 200000), mem_gb=None, env=ASAN_ENV, timeout=(900, 7200))],
+            Stage("c05", pkg="mon_stark", variant="asan", kind="sharded", n=(6000, 200000), mem_gb=None, env=ASAN_ENV, timeout=(900, 7200)),
+            Stage("c05_decoders", pkg="mon_stark", variant="rel", kind="sharded", n=(20000, 1000000), mem_gb=4, timeout=(900, 7200)),
+            Stage("c05_decoders", pkg="mon_stark", variant="chk", kind="sharded", n=(8000, 100000), mem_gb=4, timeout=(900, 7200)),
+            Stage("c05_decoders", pkg="mon_stark", kind="miri", args=["--to", "150"], miri_flags=MIRI_SERIAL, timeout=(1800, 3600), tiers=("thorough",))],
 )
 
 PROPS["C03"] = dict(
